@@ -271,7 +271,7 @@ class Discharger:
                     if recv and src & recv and not mut and f.dominates(pb, bb, unwind=False):
                         return ("D-FOUND-INDEX", "the index was returned by position() on the same vector, which is not changed in between")
         if kind.startswith("assert:Overflow") or kind == "assert:Overflow":
-            r = self.read_contract_arith(f, bb, t) or self.digit_arith(f, bb, t)
+            r = self.read_contract_arith(f, bb, t) or self.digit_arith(f, bb, t) or self.guarded_place_sub(f, bb, t)
             if r:
                 return r
         if kind == "arith":
@@ -769,6 +769,99 @@ class Discharger:
             return ("D-READ-CONTRACT", "%s of a count returned by Read::read, which is bounded by the slice handed to it" % x[1])
         return None
 
+    def guarded_place_sub(self, f, bb, t):
+        """`a - b` of two memory places (fields behind a parameter) on the side of a dominating comparison of the same two places that
+        implies a >= b, with nothing able to write either place between the loads the comparison was made from and the subtraction"""
+        o = f.origin(t["cond"])
+        ops = [x for x in origin_walk(o) if x[0] == "binop" and x[1] == "SubWithOverflow"]
+        if not ops:
+            return None
+        A, B = ops[0][2], ops[0][3]
+        def root_arg(x):
+            while x and x[0] in ("field", "deref", "downcast"):
+                x = x[1]
+            return x[1] if x and x[0] == "arg" else None
+        def is_place(x):
+            return x[0] == "field" and root_arg(x) is not None and any(y[0] == "deref" for y in origin_walk(x))
+        if not (is_place(A) and is_place(B)) or A == B:
+            return None
+        roots = {root_arg(A), root_arg(B)}
+        def prefix(x, y):
+            # is place x a prefix of place y (or equal)?
+            while True:
+                if x == y:
+                    return True
+                if y and y[0] in ("field", "deref", "downcast", "index"):
+                    y = y[1]
+                else:
+                    return False
+        def overlaps(x):
+            return any(prefix(x, P) or prefix(P, x) for P in (A, B))
+        dom = f.dominators(False)
+        for d in sorted(dom[bb], reverse=True):
+            if d == bb:
+                continue
+            bs = bool_switch(f, d)
+            if not bs or bs[1] == bs[2]:
+                continue
+            c = f.origin(bs[0])
+            if c[0] != "binop" or c[1] not in ("Ge", "Gt", "Le", "Lt"):
+                continue
+            if (c[2], c[3]) == (A, B):
+                edge = c[1] in ("Ge", "Gt")          # `a >= b` / `a > b` taken; `a < b` / `a <= b` refused
+            elif (c[2], c[3]) == (B, A):
+                edge = c[1] in ("Le", "Lt")          # `b <= a` / `b < a` taken; `b > a` / `b >= a` refused
+            else:
+                continue
+            tgt = bs[1] if edge else bs[2]
+            if not f.dominates(tgt, bb, unwind=False):
+                continue
+            # the earliest block the comparison's operands were loaded in
+            chain, work_, seen_ = [d], [op_place(bs[0])["l"]] if op_place(bs[0]) else [], set()
+            while work_:
+                l = work_.pop()
+                if l in seen_:
+                    continue
+                seen_.add(l)
+                sd = f.single_def(l)
+                if sd is None or sd[0] != "assign":
+                    continue
+                chain.append(sd[1])
+                rv = sd[3]
+                for k_ in ("op", "a", "b"):
+                    if isinstance(rv.get(k_), dict) and op_place(rv[k_]) and not op_place(rv[k_])["p"]:
+                        work_.append(op_place(rv[k_])["l"])
+            E = [x for x in chain if all(f.dominates(x, y, unwind=False) for y in chain)]
+            if not E:
+                continue
+            E = E[0]
+            back = set()
+            pr = f.preds(False)
+            wk = [bb]
+            while wk:                                 # blocks that reach the subtraction without passing the loads again
+                x = wk.pop()
+                for y in pr[x]:
+                    if y not in back and y != E:
+                        back.add(y); wk.append(y)
+            region_ = ({E} | (f.reach([E], unwind=False) & back)) | {bb}
+            killed = None
+            for x in sorted(region_):
+                for s_ in f.stmts(x):
+                    if s_["s"] == "assign" and "*" in s_["lhs"]["p"]:
+                        w = f.origin_place(s_["lhs"])
+                        if root_arg(w) is None or overlaps(w):
+                            killed = "write at %s" % f.loc(x)
+                tt = f.term(x)
+                if tt["t"] == "call" and x != bb:
+                    for a_ in tt["args"]:
+                        oa = f.origin(a_)
+                        if any(y[0] == "arg" and y[1] in roots for y in origin_walk(oa)) or any(y[0] in ("local", "unknown") for y in origin_walk(oa)):
+                            # something derived from the same parameter (or of unknown provenance) is handed to code that is not analysed here
+                            killed = "call %s at %s" % (short(call_name(tt)), f.loc(x))
+            if killed is None:
+                return ("D-GUARDED-ARITH", "`a - b` of two fields on the side of a dominating comparison of the same fields that implies a >= b, neither being written in between")
+        return None
+
     def guarded_arith(self, f, bb, t):
         name = t.get("res_name") or call_name(t)
         if re.search(r"Duration as std::ops::Sub>::sub$", name):
@@ -879,9 +972,11 @@ def run(ctx):
             bound = taint.bounded_by_constant(g, bb, t["args"][idx]) if tainted else None
             if tainted and bound is None:
                 # the bound may sit in the function this helper serves
-                R, b = shared.lift_site(facts, g, bb)
-                if R is not g:
-                    bound = taint.bounded_by_constant(R, b, R.term(b)["args"][idx])
+                # (in every one of them, when it serves several)
+                cx = shared.lift_sites(facts, g, bb)
+                if cx and all(R is not g for R, b in cx):
+                    bs_ = [taint.bounded_by_constant(R, b, R.term(b)["args"][idx]) for R, b in cx]
+                    bound = bs_[0] if all(x is not None for x in bs_) else None
             if tainted and bound is None:
                 bound = framing_bound(facts, g, bb)
             ok = (not tainted) or bound is not None
@@ -958,11 +1053,12 @@ def panic_census(ctx, RULE, reg=None, fns=None):
             continue
         if r is None:
             # a site inside a private helper is judged inside the function the helper serves (its guards may live there)
-            R, b = shared.lift_site(facts, g, bb)
-            if R is not g:
-                r = D.discharge(R, b, kind, R.term(b))
-                if r and r[0] == "DEFER-POISON":
-                    r = None
+            # (in every one of them, when it serves several)
+            cx = shared.lift_sites(facts, g, bb)
+            if cx and all(R is not g for R, b in cx):
+                rs_ = [D.discharge(R, b, kind, R.term(b)) for R, b in cx]
+                if all(x is not None and x[0] != "DEFER-POISON" for x in rs_):
+                    r = rs_[0]
         if r is None:
             rid, rbb = g.id, bb
             if rid in covered and (rid, rbb) not in visited:
